@@ -46,11 +46,9 @@ class PolarsSchemaBackend(BaseSchemaBackend):
         if tail is not None:
             obj_subsample.append(check_obj.tail(tail))
         if sample is not None:
+            # a LazyFrame cannot be sampled: sample the collected frame
             obj_subsample.append(
-                # mypy is detecting a bug https://github.com/unionai-oss/pandera/issues/1912
-                check_obj.sample(  # type:ignore [attr-defined]
-                    sample, random_state=random_state
-                )
+                check_obj.collect().sample(n=sample, seed=random_state).lazy()
             )
         return (
             check_obj
